@@ -202,7 +202,7 @@ func (c *c02Checker) engineItem(it c02Item, mod *ast.Module, route *ast.Route) {
 			c.res.Count("programs_refused/engine", 1)
 			return
 		}
-		ov := c02EngineVM(route, code[route], r)
+		ov := c02EngineVM(mod, route, code[route], r)
 		c.countCase("engine", it.Src, r, !c02Trivial(oi, ov))
 		if oi.same(ov) {
 			continue
@@ -239,7 +239,7 @@ func (c *c02Checker) httpItem(it c02Item, mod *ast.Module, route *ast.Route) {
 		if code != nil {
 			// a compiled handler has no step limit: never send a request that
 			// the VM does not finish (found and reported at engine level)
-			if ov := c02EngineVM(route, code, r); ov.Hang {
+			if ov := c02EngineVM(mod, route, code, r); ov.Hang {
 				oi, _ := c02EngineInterp(mod, route, r)
 				c.countCase("http", it.Src, r, true)
 				c.disagree("engine", it.Layer, it.Src, it.Route, c02Case{mod, route, r}, oi, ov)
